@@ -40,6 +40,25 @@ CHECKS = [
     core('C17', 'trace records (tracer identity, location, name, arguments, result / exception text) validated for nestings of custom and stream tracers', TECH_CORE, '6/C17'),
 ]
 
+def other(pid, text, tech, ref, note, engine):
+    return dict(property_id=pid, quick_cmd='./check %s quick' % pid, thorough_cmd='./check %s thorough' % pid,
+                evidence_file='evidence/%s.json' % pid, replay_cmd_template='cat {path}', engine=engine,
+                level_claimed=dict(category='model_checking', text=text, design_ref=ref), level_note=note, technique=tech)
+
+CHECKS += [
+    other('C10', 'the mathematical predicate of every scalar matcher / combinator is a recursive TLA+ operator (Matchers.tla); TLC checks its algebraic laws over a bounded term universe '
+                 'and judges the verdict of the REAL matcher for every catalogue term (all leaves typed and duck-typed, !, *, any_of/all_of/none_of with 0..3 operands, MEMBER_IS, strings, re) on every subject value, each through a real ALLOW_CALL',
+          'TLA+ predicate Acc(term, x) as executable oracle (TLC laws + TLC trace validation of real matcher verdicts over an enumerated term catalogue)', '6/C10',
+          'trusted: TLC, g++, the catalogue generator (C++ expression <-> abstract term); strings by rank; re() found-flag from an independent std::regex_search', 'tla-matchers'),
+    other('C11', 'range matchers specified by position / quantifier / set of verdicts of the documented greedy one-pass assignment (Matchers.tla RAcc); TLC proves on the bounded domain that for non-overlapping element matchers '
+                 'this equals "an injective assignment exists"; every catalogue term is evaluated by the real matcher on all ranges over {0,1,2} up to length 4 in vector (via a real call), list, deque, std::array, C array; single-element forms must compile',
+          'TLA+ oracle RAcc(term, range) (TLC laws + TLC trace validation of real range matcher verdicts, exhaustive ranges) + compile probes', '6/C11',
+          'trusted: TLC, g++, the catalogue generator; overlapping element matchers: any greedy verdict accepted (docs: may or may not match)', 'tla-matchers'),
+    other('C18', 'Render(value) and the stream-state law are a TLA+ function (Printing.tla); TLC compares output and state after trompeloeil::print for a typed value catalogue (ints, strings, null pointers / smart pointers / null-comparable, nested collections, pairs, tuples, maps, opaque structs of 1..40 bytes, printer<T>, operator<<) under every prior stream state, plus the same values embedded in a real report and trace record; ASan+UBSan on',
+          'TLA+ rendering function as executable oracle, TLC trace validation of real print() output and stream state', '6/C18',
+          'trusted: TLC, g++ sanitizers, the value catalogue (C++ value <-> abstract value); unspecified padding cases are not compared', 'tla-printing'),
+]
+
 NOT_YET = {
     'C09': 'check under construction in this round (generated program family + Binding.tla); not claimed until it runs clean',
     'C10': 'check under construction in this round (Matchers.tla + matcher driver); not claimed until it runs clean',
@@ -59,7 +78,9 @@ def main():
                    enable='-DROLLBEAR_TROMPELOEIL_VERIF on the C12 driver build only (no hook commit exists yet; the sequential checks use the public API only)',
                    baseline_off_cmd='cmake -G Ninja -S /repo -B /repo/_build -DCMAKE_BUILD_TYPE=RelWithDebInfo -DCMAKE_CXX_FLAGS=-Wno-error -DTROMPELOEIL_BUILD_TESTS=yes && cmake --build /repo/_build && ctest --test-dir /repo/_build -j8 --timeout 900 --output-junit /repo/_build/junit.xml',
                    source_commits=[], add_only=True),
-        engines=[dict(name='tla-core', path='spec/Core.tla', serves_properties=[c['property_id'] for c in CHECKS],
+        engines=[dict(name='tla-matchers', path='spec/Matchers.tla', serves_properties=['C10', 'C11'], kind_free_text='TLA+ oracle + TLC trace validation of real matcher verdicts'),
+                 dict(name='tla-printing', path='spec/Printing.tla', serves_properties=['C18'], kind_free_text='TLA+ oracle + TLC trace validation of real print() output'),
+                 dict(name='tla-core', path='spec/Core.tla', serves_properties=[c['property_id'] for c in CHECKS if c['engine'] == 'tla-core'],
                       kind_free_text='TLA+ spec + TLC model checking + trace validation of the real library (harness/seq driver)')],
         checks=CHECKS,
         notes='See DESIGN.md. known_findings.json lists repaired defects (fix: commits in /repo) and open findings.',
